@@ -1939,8 +1939,19 @@ pub fn insert_marked_instructions(m: &mut walrus::Module, seed: u64) -> usize {
 
 pub fn xform_case(inp: &Input, variant: &str) -> Value {
     // "plain-loc": like "plain", with a user callback that assigns the locations (the identity: what the default does)
-    let cfg = Cfg { xform: true, probe: true, instr_loc: variant == "plain-loc", ..Default::default() };
+    // "plain-dwarf": the module carries (synthesized) DWARF and DWARF generation is on: the DWARF rewriter uses the transform
+    // before the user's sections get it
+    let with_dwarf = variant == "plain-dwarf";
+    let cfg = Cfg { xform: true, probe: true, dwarf: with_dwarf, instr_loc: variant == "plain-loc", ..Default::default() };
     let id = format!("{}~{}", inp.id, variant);
+    let owned;
+    let inp = if with_dwarf {
+        let b = crate::dwarf::attach(&inp.bytes, crate::dwarf::DwarfOpts { version: 4, spanning: false, nested: false }).unwrap_or_else(|| inp.bytes.clone());
+        owned = Input { id: inp.id.clone(), bytes: b, source: inp.source.clone() };
+        &owned
+    } else {
+        inp
+    };
     let parsed = match run::parse(&inp.bytes, &cfg) {
         Ok(p) => p,
         Err(e) => return json!({"id": id, "source": inp.source, "outcome": format!("parse-{}", e)}),
